@@ -57,6 +57,7 @@ var (
 )
 
 const assertURI = "https://rp.example.test/cb"
+const assertURI2 = "https://rp.example.test/cb2"
 
 func assertWorldFor(delegation bool) *assertWorld {
 	assertMu.Lock()
@@ -67,7 +68,7 @@ func assertWorldFor(delegation bool) *assertWorld {
 	regs := []*modelstore.ClientReg{}
 	for _, id := range []string{"A", "B"} {
 		r := &modelstore.ClientReg{ID: id, Auth: "pkjwt", App: "web", Grants: []string{"code", "refresh", "bearer"}, RTypes: []string{"code"},
-			URIs: []string{assertURI}, ATType: "opaque", IDTLifetime: time.Hour, Keys: map[string]*jose.JSONWebKey{}}
+			URIs: []string{assertURI, assertURI2}, ATType: "opaque", IDTLifetime: time.Hour, Keys: map[string]*jose.JSONWebKey{}}
 		for name, k := range assertionKeys {
 			if k.owner == id {
 				r.Keys[k.kid] = &jose.JSONWebKey{Key: aKey(name).Pub, KeyID: k.kid, Use: "sig"}
@@ -331,6 +332,12 @@ func RequestObjectCase(c *Case) M {
 	if rt := S(o, "rtype"); rt != "absent" {
 		claims["response_type"] = rt
 	}
+	switch S(o, "ruri") {
+	case "registered":
+		claims["redirect_uri"] = assertURI2
+	case "unregistered":
+		claims["redirect_uri"] = "https://attacker.example.test/cb"
+	}
 	payload, _ := json.Marshal(claims)
 	alg, by := S(o, "alg"), S(o, "by")
 	hdr := M{"alg": alg, "typ": "JWT"}
@@ -365,7 +372,7 @@ func RequestObjectCase(c *Case) M {
 			"state": {"q-state"}, "nonce": {"q-nonce"}, "code_challenge": {"query-challenge-0123456789abcdefghijklmnopqrstuvwxyz012"}, "code_challenge_method": {"S256"},
 			"request": {object}}
 		r := opdrv.Serve(w.h[router], httptest.NewRequest(http.MethodGet, opdrv.Issuer+"/authorize?"+q.Encode(), nil))
-		res := M{"class": "refused", "src": "none", "status": r.Status}
+		res := M{"class": "refused", "src": "none", "uri": "none", "status": r.Status}
 		switch {
 		case r.Panic != "":
 			res["class"], res["detail"] = "panic", r.Panic
@@ -374,6 +381,14 @@ func RequestObjectCase(c *Case) M {
 			res["class"] = "login"
 			w.store.Lock()
 			if ar, ok := w.store.Requests[id]; ok {
+				switch ar.URI {
+				case assertURI:
+					res["uri"] = "query"
+				case assertURI2:
+					res["uri"] = "objRegistered"
+				default:
+					res["uri"] = "objUnregistered"
+				}
 				n := 0
 				src := func(v, q, ob string) {
 					if v == ob || (ob == "forged-state" && v == "forged-state") {
